@@ -1,6 +1,6 @@
 """Data for MANIFEST.json (edit here, then run tools_manifest.py)."""
 
-PYVC_PROPS = ["C04", "C08", "C09", "C10", "C11", "C16"]
+PYVC_PROPS = ["C04", "C08", "C09", "C10", "C11", "C14", "C16"]
 BOUNDED_PROPS: list[str] = ["C04", "C06", "C09", "C14", "C10", "C11", "C12", "C15"]
 
 
@@ -112,8 +112,10 @@ CHECKS += [
          "followed by pv2puml on the saved files, with the default and with a fully renamed field mapping, sync and async: the saved PV files hold exactly "
          "the events, links and field values of the in-memory stream (under the renamed keys), loading inverts saving, and the models learned on the two "
          "routes are equal per workflow.",
-         "Bounded exploration on seeded trace sets; diagram text is not compared (C03). The deductive contracts of DESIGN 4/C14 on "
-         "transform_dict_into_pv_event / the save comprehension are not part of this check.", "DESIGN.md 4/C14"),
+         "Bounded exploration on seeded trace sets; diagram text is not compared (C03). Additionally PROVED (contracts/c14.py, 5 clauses): "
+         "transform_dict_into_pv_event reads every PV field under the key the mapping gives it, normalises previousEventIds, and raises ValueError exactly "
+         "when a mandatory renamed key is missing (pydantic validation trusted). The save comprehension inside `with open`/json.dump is not under contract.",
+         "DESIGN.md 4/C14"),
     bchk("C15", "BOUNDED (never counted as proved). Every history of <= 3 runs (ingest / no ingest x unique graphs on / off) of the real entry point "
          "otel_to_pv over a file-backed store, with time_buffer 0 and 1: each run terminates, keeps the store well-formed (association rows match stored "
          "spans) and reproduces the PV sequences and selected shapes of the first run with the same flags.",
